@@ -754,6 +754,10 @@ pub(crate) struct CompactionIterator<'a> {
 	/// active snapshot must be preserved. The list is sorted in ascending
 	/// order for efficient binary search.
 	snapshots: Vec<u64>,
+
+	/// Visible sequence number of the store when the compaction began, if known
+	/// (see `with_horizon`).
+	horizon: Option<u64>,
 }
 
 impl<'a> CompactionIterator<'a> {
@@ -790,7 +794,20 @@ impl<'a> CompactionIterator<'a> {
 			clock,
 			initialized: false,
 			snapshots,
+			horizon: None,
 		}
+	}
+
+	/// Makes the compaction respect the store's visibility horizon: the newest
+	/// version at or below it is what a transaction begun now reads (it counts as a
+	/// registered snapshot), and versions above it are not published yet and are
+	/// all kept - which of them a later transaction reads is not known.
+	pub(crate) fn with_horizon(mut self, horizon: u64) -> Self {
+		if let Err(pos) = self.snapshots.binary_search(&horizon) {
+			self.snapshots.insert(pos, horizon);
+		}
+		self.horizon = Some(horizon);
+		self
 	}
 
 	/// Initialize the iterator by seeking to the first entry.
@@ -821,6 +838,13 @@ impl<'a> CompactionIterator<'a> {
 	/// # Errors
 	/// Returns an error if the sequence number is invalid (zero).
 	fn find_earliest_visible_snapshot(&self, seq_num: u64) -> Result<SnapshotVisibility> {
+		// A version above the visibility horizon is not published yet. Which
+		// transactions will read it is not known: it stands in a boundary of its
+		// own and is never given up for a newer one.
+		if self.horizon.is_some_and(|h| seq_num > h) {
+			return Ok(SnapshotVisibility::BoundedBySnapshot(seq_num));
+		}
+
 		// Fast path: no active snapshots
 		if self.snapshots.is_empty() {
 			return Ok(SnapshotVisibility::NoActiveSnapshots);
